@@ -7,6 +7,7 @@ package main
 import (
 	"encoding/hex"
 	"fmt"
+	"runtime"
 	"sort"
 	"strconv"
 	"strings"
@@ -23,7 +24,45 @@ import (
 	"verifharness/lib"
 )
 
-const watchdog = 2 * time.Second
+const (
+	watchdog    = 2 * time.Second  // a call that has not returned by then is examined
+	watchdogMax = 40 * time.Second // a call whose goroutine is still runnable is given this long (loaded machine)
+)
+
+// goid returns the id of the calling goroutine (first line of its stack dump: "goroutine 12 [running]:").
+func goid() string {
+	buf := make([]byte, 64)
+	n := runtime.Stack(buf, false)
+	f := strings.Fields(string(buf[:n]))
+	if len(f) > 1 {
+		return f[1]
+	}
+	return "?"
+}
+
+// goroutineBlocked reports whether the goroutine is parked (waiting for a lock, a channel, ...)
+// as opposed to running or runnable but starved; unknown if it cannot be found in the dump.
+func goroutineBlocked(id string) (blocked, known bool) {
+	buf := make([]byte, 8<<20)
+	n := runtime.Stack(buf, true)
+	dump := string(buf[:n])
+	i := strings.Index(dump, "goroutine "+id+" [")
+	if i < 0 {
+		return false, false
+	}
+	rest := dump[i+len("goroutine "+id+" ["):]
+	j := strings.IndexByte(rest, ']')
+	if j < 0 {
+		return false, false
+	}
+	st := rest[:j]
+	for _, p := range []string{"running", "runnable", "syscall", "GC ", "preempted", "copystack"} {
+		if strings.HasPrefix(st, p) {
+			return false, true
+		}
+	}
+	return true, true
+}
 
 // ---- ids, hashes ----
 
@@ -202,7 +241,9 @@ func runHistory(protocol int, hasBackend bool, ops []op) []stepObs {
 			queued++
 		}
 		done := make(chan stepObs, 1)
+		gid := make(chan string, 1)
 		go func() {
+			gid <- goid()
 			var r stepObs
 			func() {
 				defer func() {
@@ -241,13 +282,26 @@ func runHistory(protocol int, hasBackend bool, ops []op) []stepObs {
 			r.Pending = proj(h.PendingResourcePacks())
 			done <- r
 		}()
-		select {
-		case r := <-done:
-			steps = append(steps, r)
-		case <-time.After(watchdog):
-			steps = append(steps, stepObs{Events: rec.take(), Ret: "RStuck", Applied: [][2]int{}, Pending: [][2]int{}})
-			return steps // the instance is abandoned
+		id := <-gid // the goroutine has started
+		var res *stepObs
+		deadline := time.Now().Add(watchdogMax)
+		wait := watchdog
+		for res == nil {
+			select {
+			case r := <-done:
+				res = &r
+			case <-time.After(wait):
+				// no return within the watchdog: stuck if the goroutine is parked (it waits for a lock it
+				// will never get); if it is merely starved on a loaded machine, keep waiting
+				blocked, known := goroutineBlocked(id)
+				if (known && blocked) || time.Now().After(deadline) {
+					steps = append(steps, stepObs{Events: rec.take(), Ret: "RStuck", Applied: [][2]int{}, Pending: [][2]int{}})
+					return steps // the instance is abandoned
+				}
+				wait = 500 * time.Millisecond
+			}
 		}
+		steps = append(steps, *res)
 	}
 	return steps
 }
